@@ -26,7 +26,10 @@ ASSUMPTIONS = [
     'steady-state initialisation is off',
 ]
 
-IC_TEXTS = ['5.0', '0.0', '-2.5', '10', '0', '0.125', '1e1', '3.', '2*3', 'sqrt(4.)', '1/4', '-(2.0)', '0.', '-0.0', '1 - 1']
+IC_TEXTS = ['5.0', '0.0', '-2.5', '10', '0', '0.125', '1e1', '3.', '2*3', 'sqrt(4.)', '1/4', '-(2.0)', '0.', '-0.0', '1 - 1',
+            '2*pi', 'e', '-pi/2', 'floor(7.5)', 'tau/4', 'exp(1.0)', 'max(1.0, 2.5)']
+# constant expressions may use everything the math library offers (functions AND constants)
+MATH_ITEMS = ['pi', 'e', '2*pi', 'sqrt(2.0)', 'exp(1.0)', '-tau', 'floor(2.5)', 'pi/2', '1.5', 'log(10.0)']
 BAD_TEXTS = ['undefined_name', '[1., 2.', 'foo(3)', '1/0', '[1.0, 2.0] + nothing']
 
 
@@ -44,8 +47,9 @@ def block_case(draw):
     new_exo = []
     invalid = None
     for name, text, form, values in spec['exo']:
-        kind = draw(st.sampled_from(['keep', 'keep', 'obj-list', 'obj-tuple', 'scalar-text', 'scalar-obj', 'ints',
-                                     'long', 'long', 'keep', 'obj-list', 'scalar-text', 'ints', 'short', 'bad-text', 'int-scalar-text']))
+        kind = draw(st.sampled_from(['keep', 'keep', 'obj-list', 'obj-tuple', 'scalar-text', 'scalar-obj', 'ints', 'math-text',
+                                     'long', 'long', 'keep', 'obj-list', 'scalar-text', 'ints', 'short', 'bad-text', 'int-scalar-text',
+                                     'math-text']))
         if kind == 'keep':
             new_exo.append([name, text, 'str', values, 'ok'])
         elif kind in ('obj-list', 'obj-tuple'):
@@ -54,6 +58,29 @@ def block_case(draw):
         elif kind == 'scalar-text':
             v = draw(st.integers(-300, 300)) / 10.0
             new_exo.append([name, repr(v), 'str', [v] * (T + 1), 'ok'])
+        elif kind == 'math-text':
+            # a string expression written with math-library constants / functions: scalar, repeated list or plain list
+            shape = draw(st.sampled_from(['scalar', 'repeat', 'list', 'concat']))
+            a, b = draw(st.sampled_from(MATH_ITEMS)), draw(st.sampled_from(MATH_ITEMS))
+            if shape == 'scalar' and not isinstance(expr.float_eval(a, {}), float):
+                shape = 'repeat'      # (an int-valued scalar is not "a float scalar"; covered by int-scalar-text)
+            if shape == 'scalar':
+                txt = a
+                vals = [float(expr.float_eval(a, {}))] * (T + 1)
+            elif shape == 'repeat':
+                n = T + 1 + draw(st.integers(0, 2))
+                txt = '[%s]*%d' % (a, n)
+                vals = [float(expr.float_eval(a, {}))] * n
+            elif shape == 'concat':
+                n1 = draw(st.integers(1, T + 1))
+                n2 = T + 1 - n1 + draw(st.integers(0, 2))
+                txt = '[%s]*%d + [%s,]*%d' % (a, n1, b, n2)
+                vals = [float(expr.float_eval(a, {}))] * n1 + [float(expr.float_eval(b, {}))] * n2
+            else:
+                items = [draw(st.sampled_from(MATH_ITEMS)) for _ in range(T + 1 + draw(st.integers(0, 2)))]
+                txt = '[' + ', '.join(items) + ']'
+                vals = [float(expr.float_eval(x, {})) for x in items]
+            new_exo.append([name, txt, 'str', vals, 'ok'])
         elif kind == 'scalar-obj':
             v = draw(st.integers(-300, 300)) / 10.0
             new_exo.append([name, None, 'obj-float', [v] * (T + 1), 'ok'])
